@@ -132,7 +132,7 @@ def tasks_readers():
                 # it is the flow of an 'unlimited' simplified ramp which is the action itself
                 expect_sc(c, "upstream flow", Rv[1], V.upstream_flow(n, l, T_), must_be_fresh=False)
 
-        out.append(Task(f"sym_metanet.blocks.nodes:Node.get_upstream_speed_and_flow<engine={mode}>", run_upstream, props=P_B + ("C02", "C14"), func="sym_metanet.blocks.nodes:Node.get_upstream_speed_and_flow", config=mode))
+        out.append(Task(f"sym_metanet.blocks.nodes:Node.get_upstream_speed_and_flow<engine={mode}>", run_upstream, props=P_B + ("C02", "C05", "C14"), func="sym_metanet.blocks.nodes:Node.get_upstream_speed_and_flow", config=mode))
 
         # ---- origins
         for cls, meth in (("Origin", "get_speed"), ("Origin", "get_flow"), ("MainstreamOrigin", "get_flow"), ("MeteredOnRamp", "get_flow"),
